@@ -79,6 +79,14 @@ static void run(const Case &c) {
     } catch (...) {
         exc = "unknown exception";
     }
+#if defined(__SANITIZE_ADDRESS__)
+    // sanitized build: use every returned descriptor with the caller's property map, as a caller would
+    {
+        volatile double sink = 0;
+        for (auto &cy : cycles) for (auto &e : cy) sink = sink + (double) boost::get(wm, e);
+        (void) sink;
+    }
+#endif
     // map descriptors by comparison
     bool foreign = false;
     std::vector<std::vector<int>> cyc;
